@@ -43,13 +43,26 @@ package main
 //                pointer parameter after the receiver has been stored to (the two may be the same object), a store
 //                to a pointer parameter.  Assumed (not checked here): the rows of a `[][]T` field do not share storage.
 //   everything else (switch, select, go, closures, floats, strings, maps, channels, ...) -> unsupported
+//
+// Additions for the HyperLogLog group (second namespace `Gostatix.Generated.LoopsHLL` of the same file, own record
+// `HllState`, own `unsupported`; the Count-Min namespace is emitted exactly as before):
+//   uint8        values and `[]uint8` slices (NOT spelled `[]byte`, which stays opaque data) are kept zero-extended in a
+//                `UInt64`; a conversion to uint8 from a wider type is `GoArith.trunc8`; only comparisons, conversions and
+//                stores of uint8 values are supported (no uint8 arithmetic)
+//   << >>        `GoArith.goShl` / `GoArith.goShr` (unsigned or constant count, `>>` on unsigned operands only),
+//                `bits.LeadingZeros64` -> `GoArith.clz64u` (as in arith.go)
+//   helpers      an inlined helper may `return` at the end of an `if` branch as well (`util.Max`); functions without
+//                receiver of a package `<module>/internal/...` of the repository (internal/util) are inlined like
+//                unexported functions of the package itself
 
 import (
 	"fmt"
 	"go/ast"
+	"go/parser"
 	"go/token"
 	"go/types"
 	"math/big"
+	"os"
 	"path/filepath"
 	"regexp"
 	"sort"
@@ -71,10 +84,27 @@ var loopSpecs = []loopSpec{
 	{"cmsMerge", "count_min_sketch.go", "CountMinSketch", "Merge"},
 }
 
-// the struct whose fields make up the Lean record, and the record's name
-const (
+// a group: the struct whose fields make up the Lean record, the record's name, the namespace, the functions
+type loopGroup struct {
+	struc, record, ns, what, tie string
+	specs                        []loopSpec
+}
+
+var hllSpecs = []loopSpec{
+	{"hllUpdate", "hyperloglog.go", "HyperLogLog", "Update"},
+	{"hllMerge", "hyperloglog.go", "HyperLogLog", "Merge"},
+}
+
+var loopGroups = []loopGroup{
+	{"CountMinSketch", "Sketch", "Gostatix.Generated.Loops", "", "", loopSpecs},
+	{"HyperLogLog", "HllState", "Gostatix.Generated.LoopsHLL", "in-memory HyperLogLog (uint8 registers: zero-extended `UInt64`, conversions to uint8 are `GoArith.trunc8`)", "Gostatix/Props/LoopTieHLL.lean", hllSpecs},
+}
+
+// the group being translated
+var (
 	loopStruct = "CountMinSketch"
 	loopRecord = "Sketch"
+	curSpecs   = loopSpecs
 )
 
 // external functions: Lean parameter, its type, argument kinds, number of uint64 results
@@ -163,7 +193,7 @@ func is64(t goTy) bool {
 func (g *loopGen) ltyOf(e ast.Expr) lty {
 	switch t := e.(type) {
 	case *ast.Ident:
-		if it := goTyNames[t.Name]; is64(it) {
+		if it := goTyNames[t.Name]; is64(it) || (it == tyU8 && t.Name == "uint8") {
 			return lty{kind: kInt, ity: it}
 		}
 		if t.Name == "error" {
@@ -180,7 +210,8 @@ func (g *loopGen) ltyOf(e ast.Expr) lty {
 		if t.Len != nil {
 			return lty{}
 		}
-		if id, ok := t.Elt.(*ast.Ident); ok && (id.Name == "byte" || id.Name == "uint8") {
+		// `[]byte` is opaque data (only passed on); `[]uint8` is a slice of small counters
+		if id, ok := t.Elt.(*ast.Ident); ok && id.Name == "byte" {
 			return lty{kind: kBytes}
 		}
 		inner := g.ltyOf(t.Elt)
@@ -287,6 +318,8 @@ type loopGen struct {
 	mutexes map[string]bool // field names of declared type sync.Mutex / sync.RWMutex (of the struct or embedded)
 	done    map[string]*fnSummary
 	out     map[string]string // lean name -> text
+	repo    string
+	sub     map[string]map[string]*ast.FuncDecl // functions of internal packages of the module, by directory
 	why     map[string]string
 }
 
@@ -537,7 +570,7 @@ func (f *lfn) chain(p lpath, lenOnly bool) (code, []string) {
 }
 
 func (f *lfn) typedConst(v lval, t goTy, pos token.Pos) lval {
-	bits := 64
+	bits := t.width()
 	if t.signed() {
 		bits = 63
 	}
@@ -691,6 +724,22 @@ func (f *lfn) binary(x *ast.BinaryExpr, env *lenv) lval {
 		return lval{pre: pre, s: lexpr{s, false}, ty: lty{kind: kBool}}
 	}
 	switch x.Op {
+	case token.SHL, token.SHR:
+		if a.ty.kind != kInt || a.ty.ity == tyU8 {
+			f.fail(x.OpPos, "shift of a %s", a.ty)
+		}
+		if b.ty.kind == kUntyped {
+			b = f.typedConst(b, tyUint, x.Y.Pos())
+		} else if b.ty.kind != kInt || b.ty.ity.signed() || b.ty.ity == tyU8 {
+			f.fail(x.OpPos, "shift count of type %s", b.ty)
+		}
+		if x.Op == token.SHR {
+			if a.ty.ity.signed() {
+				f.fail(x.OpPos, ">> on a signed operand (%s)", a.ty)
+			}
+			return lval{pre: pre, s: lexpr{"GoArith.goShr " + a.s.paren() + " " + b.s.paren(), false}, ty: a.ty}
+		}
+		return lval{pre: pre, s: lexpr{"GoArith.goShl " + a.s.paren() + " " + b.s.paren(), false}, ty: a.ty}
 	case token.ADD, token.SUB, token.MUL, token.XOR, token.AND, token.OR, token.AND_NOT:
 		if a.ty.kind == kUntyped && b.ty.kind == kUntyped {
 			if v := f.constOf(x); v != nil && v.Sign() >= 0 {
@@ -698,14 +747,17 @@ func (f *lfn) binary(x *ast.BinaryExpr, env *lenv) lval {
 			}
 		}
 		t := intOperands()
+		if t == tyU8 {
+			f.fail(x.OpPos, "%s on uint8 operands (only comparisons and conversions of uint8 are supported)", x.Op)
+		}
 		if x.Op == token.AND_NOT {
 			return lval{pre: pre, s: lexpr{a.s.paren() + " &&& (~~~ " + b.s.paren() + ")", false}, ty: lty{kind: kInt, ity: t}}
 		}
 		return lval{pre: pre, s: lexpr{a.s.paren() + " " + leanOp[x.Op] + " " + b.s.paren(), false}, ty: lty{kind: kInt, ity: t}}
 	case token.QUO, token.REM:
 		t := intOperands()
-		if t.signed() {
-			f.fail(x.OpPos, "%s on signed operands (%s)", x.Op, t)
+		if t.signed() || t == tyU8 {
+			f.fail(x.OpPos, "%s on signed / uint8 operands (%s)", x.Op, t)
 		}
 		fn := "GoLoop.div"
 		if x.Op == token.REM {
@@ -787,8 +839,8 @@ func (f *lfn) call(x *ast.CallExpr, env *lenv, nres int) []lval {
 			f.fail(x.Pos(), "call of the variable `%s`", fn.Name)
 		}
 		if to, ok := goTyNames[fn.Name]; ok {
-			if !is64(to) || len(x.Args) != 1 {
-				f.fail(x.Pos(), "conversion %s (only the 64-bit integer types)", fun)
+			if !(is64(to) || (to == tyU8 && fn.Name == "uint8")) || len(x.Args) != 1 {
+				f.fail(x.Pos(), "conversion %s (only the 64-bit integer types and uint8)", fun)
 			}
 			a := f.expr(x.Args[0], env)
 			if a.ty.kind == kUntyped {
@@ -797,6 +849,9 @@ func (f *lfn) call(x *ast.CallExpr, env *lenv, nres int) []lval {
 			}
 			if a.ty.kind != kInt {
 				f.fail(x.Pos(), "conversion of %s to %s", a.ty, to)
+			}
+			if to == tyU8 && a.ty.ity != tyU8 {
+				a.s = lexpr{"GoArith.trunc8 " + a.s.paren(), false} // uint8 values are kept zero-extended
 			}
 			a.ty, a.lenOf = lty{kind: kInt, ity: to}, ""
 			return one(a)
@@ -917,6 +972,18 @@ func (f *lfn) call(x *ast.CallExpr, env *lenv, nres int) []lval {
 		if !ok {
 			f.fail(x.Pos(), "call of %s", fun)
 		}
+		if env.vars[id.Name] == nil {
+			if path := f.importPath(id.Name); path == "math/bits" && fn.Sel.Name == "LeadingZeros64" && len(x.Args) == 1 {
+				a := f.expr(x.Args[0], env)
+				if a.ty.kind != kInt || a.ty.ity != tyU64 {
+					f.fail(x.Pos(), "argument of %s has type %s", fun, a.ty)
+				}
+				return one(lval{pre: a.pre, s: lexpr{"GoArith.clz64u " + a.s.paren(), false}, ty: lty{kind: kInt, ity: tyInt}})
+			} else if fd := f.g.subPkgFunc(path, fn.Sel.Name); fd != nil {
+				// a function of a package of the same module (internal/util): inlined like a private helper
+				return f.inlineCall(x, fd, nil, env, nres)
+			}
+		}
 		obj := env.vars[id.Name]
 		if obj == nil || obj.ty.kind != kRec {
 			f.fail(x.Pos(), "call of %s (not a method of the sketch, not a known external function)", fun)
@@ -925,8 +992,8 @@ func (f *lfn) call(x *ast.CallExpr, env *lenv, nres int) []lval {
 		if fd == nil {
 			f.fail(x.Pos(), "call of %s: no unique method %s on %s", fun, fn.Sel.Name, obj.struc)
 		}
-		for i := range loopSpecs {
-			sp := &loopSpecs[i]
+		for i := range curSpecs {
+			sp := &curSpecs[i]
 			if sp.fn == fd.Name.Name && sp.recv == typeName(fd.Recv.List[0].Type) {
 				return f.rootCall(x, sp, obj, env, nres)
 			}
@@ -938,6 +1005,61 @@ func (f *lfn) call(x *ast.CallExpr, env *lenv, nres int) []lval {
 	}
 	f.fail(x.Pos(), "call of %s", fun)
 	return nil
+}
+
+// importPath: the path of the package imported under `name` in the file being read ("" if none)
+func (f *lfn) importPath(name string) string {
+	file := f.g.pkg.files[filepath.Base(f.g.pkg.fset.Position(f.curPos).Filename)]
+	if file == nil {
+		return ""
+	}
+	for _, imp := range file.Imports {
+		path, _ := strconv.Unquote(imp.Path.Value)
+		n := path[strings.LastIndex(path, "/")+1:]
+		if imp.Name != nil {
+			n = imp.Name.Name
+		}
+		if n == name {
+			return path
+		}
+	}
+	return ""
+}
+
+// subPkgFunc: the function `name` (no receiver) of the package `<module>/internal/...` of the repository
+func (g *loopGen) subPkgFunc(path, name string) *ast.FuncDecl {
+	i := strings.Index(path, "/internal/")
+	if i < 0 {
+		return nil
+	}
+	dir := filepath.Join(g.repo, path[i+1:])
+	if g.sub[dir] == nil {
+		g.sub[dir] = map[string]*ast.FuncDecl{}
+		matches, _ := filepath.Glob(filepath.Join(dir, "*.go"))
+		sort.Strings(matches)
+		for _, m := range matches {
+			if strings.HasSuffix(m, "_test.go") {
+				continue
+			}
+			data, err := os.ReadFile(m)
+			if err != nil {
+				continue
+			}
+			file, err := parser.ParseFile(g.pkg.fset, m, data, parser.SkipObjectResolution)
+			if err != nil {
+				continue
+			}
+			if _, clash := g.pkg.src[filepath.Base(m)]; !clash {
+				g.pkg.src[filepath.Base(m)] = strings.Split(string(data), "\n")
+			}
+			for _, d := range file.Decls {
+				if fd, ok := d.(*ast.FuncDecl); ok && fd.Recv == nil && fd.Body != nil {
+					g.sub[dir][fd.Name.Name] = fd
+				}
+			}
+		}
+	}
+	return g.sub[dir][name]
 }
 
 func (f *lfn) imports(suffix, name string) bool {
@@ -1135,46 +1257,41 @@ func (f *lfn) inlineCall(x *ast.CallExpr, fd *ast.FuncDecl, obj *lvar, env *lenv
 		}
 		henv.vars[n] = pv
 	}
-	body := fd.Body.List
-	var ret *ast.ReturnStmt
-	if n := len(body); n > 0 {
-		if r, ok := body[n-1].(*ast.ReturnStmt); ok {
-			ret, body = r, body[:n-1]
-		}
-	}
-	if nres > 0 && (ret == nil || len(ret.Results) != nres) {
-		f.fail(x.Pos(), "call of %s: its body does not end in a return of %d values", name, nres)
-	}
+	// `return` may also end an `if` branch of the helper (as in the translated functions themselves): every return
+	// yields the tuple (outer variables assigned, results), and so does the end of a result-less body
 	f.inline = append(f.inline, fd)
 	var resTmp []string
-	var resVals []lval
 	hits, _, text := f.compound(env, false, func(k func(*lenv, []string) code) code {
-		return f.block(body, henv, func(e *lenv) code {
+		saveNR, saveRet := f.noReturn, f.retK
+		f.noReturn = 0
+		defer func() { f.noReturn, f.retK = saveNR, saveRet }()
+		f.retK = func(e *lenv, vals []ast.Expr, pos token.Pos) code {
+			if len(vals) != nres {
+				f.fail(pos, "%s returns %d values, %d are consumed", name, len(vals), nres)
+			}
 			var c code
 			var rs []string
-			resVals = nil
-			if ret != nil {
-				f.curPos = ret.Pos()
-				if len(ret.Results) > 0 {
-					c = append(c, f.srcComment(ret))
+			for i, r := range vals {
+				v := f.expr(r, e)
+				if v.ty.kind == kUntyped && rtys[i].kind == kInt {
+					v = f.typedConst(v, rtys[i].ity, r.Pos())
 				}
-				for i, r := range ret.Results {
-					v := f.expr(r, e)
-					if v.ty.kind == kUntyped && rtys[i].kind == kInt {
-						v = f.typedConst(v, rtys[i].ity, r.Pos())
-					}
-					if v.ty != rtys[i] {
-						f.fail(r.Pos(), "%s returns a %s as %s", name, v.ty, rtys[i])
-					}
-					if v.ty.kind == kSlice && !v.fresh && !f.freshLocal(r, e, env) {
-						f.fail(r.Pos(), "%s returns a slice that is not a local copy (slices are values in the translation)", name)
-					}
-					c = append(c, v.pre...)
-					rs = append(rs, v.s.s)
-					resVals = append(resVals, v)
+				if v.ty != rtys[i] {
+					f.fail(r.Pos(), "%s returns a %s as %s", name, v.ty, rtys[i])
 				}
+				if v.ty.kind == kSlice && !v.fresh && !f.freshLocal(r, e, env) {
+					f.fail(r.Pos(), "%s returns a slice that is not a local copy (slices are values in the translation)", name)
+				}
+				c = append(c, v.pre...)
+				rs = append(rs, v.s.s)
 			}
 			return append(c, k(e, rs)...)
+		}
+		return f.block(fd.Body.List, henv, func(e *lenv) code {
+			if nres > 0 {
+				f.fail(x.Pos(), "call of %s: its body does not end in a return of %d values", name, nres)
+			}
+			return k(e, nil)
 		})
 	})
 	f.inline = f.inline[:len(f.inline)-1]
@@ -1183,7 +1300,7 @@ func (f *lfn) inlineCall(x *ast.CallExpr, fd *ast.FuncDecl, obj *lvar, env *lenv
 		pat = append(pat, h.lean)
 	}
 	var out []lval
-	for i := range resVals {
+	for i := range rtys {
 		t := f.newTmp(rtys[i].lean())
 		resTmp = append(resTmp, t)
 		pat = append(pat, t)
@@ -1873,7 +1990,36 @@ func (f *lfn) loop(s ast.Stmt, env *lenv, k func(*lenv) code) code {
 			vs = append(vs, r)
 		}
 	}
-	sort.Slice(vs, func(i, j int) bool { return vs[i].seq < vs[j].seq })
+	// parameter order: by first USE in the loop text (bound first, then the body), so that re-ordering
+	// independent statements before the loop or renaming locals does not permute the parameters
+	firstUse := map[string]int{}
+	pos := 0
+	for _, l := range loopText {
+		if strings.HasPrefix(strings.TrimSpace(l), "--") {
+			continue
+		}
+		for _, m := range identRe.FindAllString(l, -1) {
+			pos++
+			if _, ok := firstUse[m]; !ok {
+				firstUse[m] = pos
+			}
+		}
+	}
+	recvLean := ""
+	if f.recv != nil {
+		recvLean = f.recv.root().lean
+	}
+	sort.SliceStable(vs, func(i, j int) bool {
+		// the receiver stays first
+		if (vs[i].lean == recvLean) != (vs[j].lean == recvLean) {
+			return vs[i].lean == recvLean
+		}
+		a, b := firstUse[vs[i].lean], firstUse[vs[j].lean]
+		if a != b {
+			return a < b
+		}
+		return vs[i].seq < vs[j].seq
+	})
 	for _, v := range vs {
 		params = append(params, fmt.Sprintf("(%s : %s)", v.lean, v.ty.lean()))
 		args = append(args, v.lean)
@@ -2272,9 +2418,6 @@ func genLoops(repo string) (string, error) {
 	if err != nil {
 		return "", err
 	}
-	g := &loopGen{pkg: p, mutexes: map[string]bool{}, done: map[string]*fnSummary{}, out: map[string]string{}, why: map[string]string{}}
-	var skipped []string
-	g.recordFields(loopStruct, 0, &skipped)
 	var b strings.Builder
 	b.WriteString("/- GENERATED by /verif/extract (loops.go) from /repo's current sources on every run. DO NOT EDIT.\n")
 	b.WriteString("   Whole function bodies of the in-memory Count-Min sketch, loops included, translated statement by\n")
@@ -2283,34 +2426,51 @@ func genLoops(repo string) (string, error) {
 	b.WriteString("   slices are `List`s, every index is checked, `none` is a Go run-time panic; the lock calls are\n")
 	b.WriteString("   skipped; `metro.Hash128` is the parameter `metroHash128`.  A function outside the language has\n")
 	b.WriteString("   NO definition here, only a comment and an entry in `unsupported`;\n")
-	b.WriteString("   Gostatix/Props/LoopTieCMS.lean then fails to build. -/\n")
+	b.WriteString("   Gostatix/Props/LoopTieCMS.lean then fails to build.\n")
+	b.WriteString("   Further structures follow in namespaces of their own (each with its own record and `unsupported`). -/\n")
 	b.WriteString("import Gostatix.Model.GoLoop\n")
+	b.WriteString("import Gostatix.Model.GoArith\n")
 	b.WriteString("set_option linter.unusedVariables false\n")
-	b.WriteString("namespace Gostatix.Generated.Loops\n")
+	for gi := range loopGroups {
+		grp := &loopGroups[gi]
+		loopStruct, loopRecord, curSpecs = grp.struc, grp.record, grp.specs
+		g := &loopGen{pkg: p, repo: repo, sub: map[string]map[string]*ast.FuncDecl{}, mutexes: map[string]bool{}, done: map[string]*fnSummary{}, out: map[string]string{}, why: map[string]string{}}
+		if gi > 0 {
+			fmt.Fprintf(&b, "\n/- the %s; a function outside the language has no definition,\n   %s then fails to build -/\n", grp.what, grp.tie)
+		}
+		g.group(&b, grp)
+	}
+	return b.String(), nil
+}
+
+func (g *loopGen) group(b *strings.Builder, grp *loopGroup) {
+	var skipped []string
+	g.recordFields(loopStruct, 0, &skipped)
+	fmt.Fprintf(b, "namespace %s\n", grp.ns)
 	b.WriteString("open Gostatix\n\n")
-	fmt.Fprintf(&b, "/-- the integer and integer-slice fields of %s (embedded structs flattened)", loopStruct)
+	fmt.Fprintf(b, "/-- the integer and integer-slice fields of %s (embedded structs flattened)", loopStruct)
 	if len(skipped) > 0 {
-		fmt.Fprintf(&b, ";\n    not part of the record: %s", strings.Join(skipped, ", "))
+		fmt.Fprintf(b, ";\n    not part of the record: %s", strings.Join(skipped, ", "))
 	}
 	b.WriteString(" -/\n")
-	fmt.Fprintf(&b, "structure %s where\n", loopRecord)
+	fmt.Fprintf(b, "structure %s where\n", loopRecord)
 	for _, fl := range g.fields {
-		fmt.Fprintf(&b, "  %s : %s  -- %s\n", leanIdent(fl.name), fl.ty.lean(), fl.ty)
+		fmt.Fprintf(b, "  %s : %s  -- %s\n", leanIdent(fl.name), fl.ty.lean(), fl.ty)
 	}
 	b.WriteString("  deriving Repr, DecidableEq\n\n")
-	for i := range loopSpecs {
-		g.translate(&loopSpecs[i])
+	for i := range grp.specs {
+		g.translate(&grp.specs[i])
 	}
 	var bad []string
-	for i := range loopSpecs {
-		sp := &loopSpecs[i]
+	for i := range grp.specs {
+		sp := &grp.specs[i]
 		if text, ok := g.out[sp.lean]; ok {
 			b.WriteString(text)
 			b.WriteString("\n")
 			continue
 		}
 		bad = append(bad, sp.lean)
-		fmt.Fprintf(&b, "-- %s (%s, %s.%s): UNSUPPORTED, no definition emitted: %s\n\n", sp.lean, sp.file, sp.recv, sp.fn, strings.ReplaceAll(g.why[sp.lean], "\n", " "))
+		fmt.Fprintf(b, "-- %s (%s, %s.%s): UNSUPPORTED, no definition emitted: %s\n\n", sp.lean, sp.file, sp.recv, sp.fn, strings.ReplaceAll(g.why[sp.lean], "\n", " "))
 	}
 	b.WriteString("/-- the functions the translator could not translate (name, file:line and reason) -/\n")
 	b.WriteString("def unsupported : List (String × String) := [")
@@ -2318,11 +2478,10 @@ func genLoops(repo string) (string, error) {
 		if i > 0 {
 			b.WriteString(",")
 		}
-		fmt.Fprintf(&b, "\n  (%s, %s)", leanString(n), leanString(g.why[n]))
+		fmt.Fprintf(b, "\n  (%s, %s)", leanString(n), leanString(g.why[n]))
 	}
 	if len(bad) > 0 {
 		b.WriteString("\n")
 	}
-	b.WriteString("]\n\nend Gostatix.Generated.Loops\n")
-	return b.String(), nil
+	fmt.Fprintf(b, "]\n\nend %s\n", grp.ns)
 }
